@@ -1231,12 +1231,15 @@ func checkFastForwardUpdate(s storer.EncodedObjectStorer, remoteRefs storer.Refe
 		shallows, _ = ss.Shallow()
 	}
 
-	ff, err := isFastForward(s, cmd.Old, cmd.New, shallows)
+	// A push overwrites the remote value, so the old value has to be found
+	// among the local ancestors of the new one; unlike for a fetch, history
+	// truncated at a shallow commit proves nothing (git: "fetch first").
+	found, _, err := findAncestor(s, cmd.Old, cmd.New, shallows)
 	if err != nil {
 		return err
 	}
 
-	if !ff {
+	if !found {
 		return fmt.Errorf("non-fast-forward update: %s", cmd.Name.String())
 	}
 
@@ -1255,9 +1258,23 @@ func checkFastForwardUpdate(s storer.EncodedObjectStorer, remoteRefs storer.Refe
 // ancestry checks are relaxed once history is truncated, at the cost of
 // not being able to prove fast-forward strictly from local data.
 func isFastForward(s storer.EncodedObjectStorer, old, newHash plumbing.Hash, shallows []plumbing.Hash) (bool, error) {
-	c, err := object.GetCommit(s, newHash)
+	found, boundedByShallow, err := findAncestor(s, old, newHash, shallows)
 	if err != nil {
 		return false, err
+	}
+	// The walk was bounded by shallow markers and could not reach `old`.
+	// We cannot disprove fast-forward from local data alone, so allow the
+	// update. This matches the behaviour of git(1) for shallow fetches.
+	return found || boundedByShallow, nil
+}
+
+// findAncestor walks the locally stored ancestors of newHash. found reports
+// whether old is among them, boundedByShallow whether the walk met a shallow
+// commit.
+func findAncestor(s storer.EncodedObjectStorer, old, newHash plumbing.Hash, shallows []plumbing.Hash) (found, boundedByShallow bool, err error) {
+	c, err := object.GetCommit(s, newHash)
+	if err != nil {
+		return false, false, err
 	}
 
 	// Build a set of shallow commits so we can detect when the walk actually
@@ -1277,7 +1294,7 @@ func isFastForward(s storer.EncodedObjectStorer, old, newHash plumbing.Hash, sha
 				// Shallow marker may reference a commit we no longer have; skip.
 				continue
 			}
-			return false, err
+			return false, false, err
 		}
 		for _, p := range shallowCommit.ParentHashes {
 			// Only a parent that is really missing is a boundary. A parent
@@ -1290,14 +1307,12 @@ func isFastForward(s storer.EncodedObjectStorer, old, newHash plumbing.Hash, sha
 				continue
 			}
 			if !errors.Is(err, plumbing.ErrObjectNotFound) {
-				return false, err
+				return false, false, err
 			}
 			parentsToIgnore = append(parentsToIgnore, p)
 		}
 	}
 
-	found := false
-	boundedByShallow := false
 	iter := object.NewCommitPreorderIter(c, nil, parentsToIgnore)
 	err = iter.ForEach(func(c *object.Commit) error {
 		if _, isShallow := shallowsSet[c.Hash]; isShallow {
@@ -1312,15 +1327,9 @@ func isFastForward(s storer.EncodedObjectStorer, old, newHash plumbing.Hash, sha
 		return storer.ErrStop
 	})
 	if err != nil {
-		return false, err
+		return false, false, err
 	}
-	if !found && boundedByShallow {
-		// The walk was bounded by shallow markers and could not reach `old`.
-		// We cannot disprove fast-forward from local data alone, so allow the
-		// update. This matches the behaviour of git(1) for shallow fetches.
-		return true, nil
-	}
-	return found, nil
+	return found, boundedByShallow, nil
 }
 
 func (r *Remote) isSupportedRefSpec(refs []config.RefSpec, caps *capability.List) error {
